@@ -131,7 +131,7 @@ func (l c09leaf) literal() influxql.Expr {
 	return nil
 }
 
-// c09Case: Shape 0 leaf; 1 `a op b`; 2 `(a op0 b) op1 c` as a bare left tree; 3 `a op0 (b op1 c)` as a bare right
+// c09Case: Shape 0 leaf; 1 `a op b` (6: in parentheses, 7: in double parentheses, 8: double parentheses as left operand); 2 `(a op0 b) op1 c` as a bare left tree; 3 `a op0 (b op1 c)` as a bare right
 // tree; 4 and 5 the same two with an explicit ParenExpr around the inner node. Time>0 selects a time-arithmetic case.
 type c09Case struct {
 	Shape  int       `json:"shape"`
@@ -170,6 +170,12 @@ func (c c09Case) build() (e influxql.Expr, r1, all map[string]interface{}) {
 		e = bin(c.Ops[1], &influxql.ParenExpr{Expr: bin(c.Ops[0], leaf(0), leaf(1))}, leaf(2))
 	case 5:
 		e = bin(c.Ops[0], leaf(0), &influxql.ParenExpr{Expr: bin(c.Ops[1], leaf(1), leaf(2))})
+	case 6: // (a op b)
+		e = &influxql.ParenExpr{Expr: bin(c.Ops[0], leaf(0), leaf(1))}
+	case 7: // ((a op b))
+		e = &influxql.ParenExpr{Expr: &influxql.ParenExpr{Expr: bin(c.Ops[0], leaf(0), leaf(1))}}
+	case 8: // ((a op0 b)) op1 c
+		e = bin(c.Ops[1], &influxql.ParenExpr{Expr: &influxql.ParenExpr{Expr: bin(c.Ops[0], leaf(0), leaf(1))}}, leaf(2))
 	}
 	return
 }
@@ -180,9 +186,9 @@ func (c c09Case) wellTyped() bool {
 	switch c.Shape {
 	case 0:
 		return true
-	case 1:
+	case 1, 6, 7:
 		return c09type(c09ops[c.Ops[0]], k(0), k(1)) >= 0
-	case 2, 4:
+	case 2, 4, 8:
 		t := c09type(c09ops[c.Ops[0]], k(0), k(1))
 		return t >= 0 && c09type(c09ops[c.Ops[1]], t, k(2)) >= 0
 	case 3, 5:
@@ -440,7 +446,9 @@ func c09run(r *ev.Run) {
 	parallelFor(len(full), func(i int) {
 		for j := range full {
 			for o := 0; o < nops; o++ {
-				run(c09Case{Shape: 1, Ops: []int{o}, Leaves: []c09leaf{full[i], full[j]}})
+				for _, shape := range []int{1, 6, 7} {
+					run(c09Case{Shape: shape, Ops: []int{o}, Leaves: []c09leaf{full[i], full[j]}})
+				}
 			}
 		}
 	})
@@ -450,7 +458,7 @@ func c09run(r *ev.Run) {
 		for j := range d2 {
 			for k := range d2 {
 				for o1 := 0; o1 < nops; o1++ {
-					for shape := 2; shape <= 5; shape++ {
+					for _, shape := range []int{2, 3, 4, 5, 8} {
 						run(c09Case{Shape: shape, Ops: []int{o0, o1}, Leaves: []c09leaf{d2[i], d2[j], d2[k]}})
 					}
 				}
